@@ -8,6 +8,12 @@ CLAIMED = {
  "C16": ("provenance slices (price, payer, recipient), same-value check of debit/credit, reaching-definition analysis of the stored expiry, commit-path guard analysis, error-propagation check",
          "registration debits the signer a value depending on msg.Years and the TLD cost table, credits that same value to the constant POL account, propagates bank errors; every reaching definition of Names.Expires has a base (height, or old expiry only under a live comparison); a live name of another owner is never overwritten. Numeric '>= Y years' is not decided.",
          "DESIGN.md §5 C16"),
+ "C10": ("commit-path guard analysis with shape-recognised owner/edit-access predicates, field-write census, key provenance",
+         "every Files write/delete in the eight owner-only handlers lies behind ownerPredicate(loaded record, signer) on all committing paths; PostFile behind editAccessPredicate(parent loaded by (HashParent,Account), signer); only the named field is assigned between load and store; deletes use the loaded key; root provisioning is signer-only. Hash collision resistance and crafted separators are not decided.",
+         "DESIGN.md §5 C10"),
+ "C11": ("exhaustive census over sdk.Msg types and service descriptors, key-component provenance, commit-path guard analysis (oracle, wasm), ante-chain order check",
+         "all 45 message types return exactly [Creator] as signers and are routable; provider/collateral/inbox/block-list/primary-name/pubkey/file-deletion writes are keyed by the signer; feed updates behind Eq(Feed.Owner,signer); the wasm binding reaches the storage handler only behind creator==contract and ValidateBasic; ante order ValidateBasic<SetPubKey<SigVerification. Signature cryptography is trusted.",
+         "DESIGN.md §5 C11"),
 }
 NA = {}
 props = [json.loads(l) for l in open('properties.jsonl')]
